@@ -9,7 +9,7 @@ COMMON_TRUST = [
     "machine integers as mathematical integers (overflow outside the claim; counters assumed < 2^20 where arithmetic occurs)",
 ]
 
-BROKER_H = ["eventlogger/broker_state.go", "eventlogger/broker_ops.go", "eventlogger/c02.go", "eventlogger/c01_c07_c20.go", "eventlogger/c14.go", "eventlogger/c04.go", "eventlogger/c12.go", "eventlogger/interleave.go", "eventlogger/c19.go"]
+BROKER_H = ["eventlogger/broker_state.go", "eventlogger/broker_ops.go", "eventlogger/c02.go", "eventlogger/c01_c07_c20.go", "eventlogger/c14.go", "eventlogger/c04.go", "eventlogger/c12.go", "eventlogger/interleave.go", "eventlogger/c19.go", "eventlogger/filesink.go"]
 
 PROPS = {
     "C02": dict(
@@ -161,3 +161,16 @@ PROPS["C19"] = dict(
     assumptions=["public configuration fields that the library never writes are read-only by contract", "FileSink, ChannelSink and encrypt.Filter pairs: see DESIGN (not yet covered)"],
     trusted_base=COMMON_TRUST,
 )
+FS_NOTE = "FileSink.Process / Reopen / reopen / open / rotate / pruneFiles / fileNamePattern / newFileName executed symbolically over a ghost file system (contracts for os.OpenFile incl. its flag word, Write, Close, Stat, Rename, Remove, Chmod, MkdirAll, filepath.Join/Glob, sort.Strings; file names parsed back into literal+timestamp structure so glob matching and order are decided structurally / as integer comparisons) from an arbitrary sink state (<=R rotated files with increasing symbolic timestamps, foreign files, active file open or not, symbolic BytesWritten/LastCreated/MaxBytes/MaxFiles/MaxDuration/Mode/TimestampOnlyOnRotate, symbolic clock). "
+PROPS["C08"] = dict(
+    level="other",
+    explanation=FS_NOTE + "Assertions: an acknowledged event is appended exactly once and contiguously to the file the sink holds; existing files keep their content; only the oldest rotated files are removed and only under a retention limit; foreign files untouched; Reopen after an external rename keeps the renamed inode intact and starts a fresh file.",
+    jobs=[dict(harness=BROKER_H, entries=r"^H_C08_", params=dict(quick=dict(R=1, FAULTS=0), thorough=dict(R=3, FAULTS=0)), shards=dict(quick=16, thorough=16))],
+    must_reach=["C08.process.norotate", "C08.process.rotated", "C08.process.opened", "C08.reopen.renamed", "C08.reopen.plain"],
+    bounds=dict(quick="<=1 rotated file + active + 2 foreign files; one operation from an arbitrary state (inductive step)", thorough="<=3 rotated files"),
+    assumptions=["A-write: one write(2) on an O_APPEND descriptor is all-or-nothing, also under SIGKILL (partial writes and kernel crash behaviour are outside the claim)", "A-19digits: timestamps print with the same number of digits", "the clock is non-decreasing and strictly increasing between two file creations", "concurrent writers: every access happens with FileSink.l held (lockset in C19)"],
+    trusted_base=COMMON_TRUST + ["ghost file system contracts (engine/symex/fsmodel.go)"],
+)
+PROPS["C15"] = dict(PROPS["C08"], explanation=FS_NOTE + "Assertions: rotation happens when BytesWritten>=MaxBytes>0 or the file is certainly older than MaxDuration>0 and never when certainly below both; counters restart; active name plain with TimestampOnlyOnRotate; at most MaxFiles rotated files right after a rotation (oldest removed first); configured mode applied.")
+PROPS["C13"]["jobs"].append(dict(harness=BROKER_H, entries=r"^H_C08_Process$|^H_C13_file_specials$", params=dict(quick=dict(R=0, FAULTS=1), thorough=dict(R=1, FAULTS=1)), shards=dict(quick=8, thorough=16)))
+PROPS["C13"]["must_reach"] += ["C13.file.specials", "C13.file.noformat"]
